@@ -236,7 +236,13 @@ def faults_job(j):
             st["cases"].append(rec)
         elif len(st["cases"]) >= j["max_cases"]:
             raise StopIteration
-    res = tlc.run("MC_faults.tla", "MC_faults_sim.cfg", on_line=on_line, workers=1, simulate=j["behaviours"], depth=40, seed=j["seed"], timeout=1500)
+    fcfg = j.get("cfg", "MC_faults_sim.cfg")
+    if j.get("exhaustive"):
+        # a small configuration enumerated exhaustively (arguments guarded by a raising directive, incl. a refused DEFAULT: the error must
+        # still be located inside the query text)
+        res = tlc.run("MC_faults.tla", fcfg, on_line=on_line, workers=1, timeout=1500)
+    else:
+        res = tlc.run("MC_faults.tla", fcfg, on_line=on_line, workers=1, simulate=j["behaviours"], depth=40, seed=j["seed"], timeout=1500)
     w = st["world"]
     engines = [w.engine({"tag": "flt-count", "coercer": counting_coercer}), w.engine({"tag": "flt-seq", "coercer": counting_coercer, "list_conc": False, "field_parent_conc": False})]
     records, meta = [], {}
@@ -259,7 +265,7 @@ def faults_job(j):
         ok, clause = verdicts[r["tid"]]
         if not ok and len(viol) < 400:
             genrun.add_viol(viol, ({"kind": "trace-rejected", "clause": clause, "class": "faulty-exec"}, {"record": r, "meta": meta[r["tid"]]}))
-    return {"job": j, "tlc": [genrun.tlc_summary("MC_faults_sim.cfg(simulate seed=%d)" % j["seed"], res, exhaustive=False), genrun.tlc_summary("Trace_resp.cfg", tres)],
+    return {"job": j, "tlc": [genrun.tlc_summary("%s(%s)" % (fcfg, "first %d cases" % j["max_cases"] if j.get("exhaustive") else "simulate seed=%d" % j["seed"]), res, exhaustive=False), genrun.tlc_summary("Trace_resp.cfg", tres)],
             "evaluations": len(records), "traces": len(records), "distinct": [hash(meta[t]["query"] + repr(meta[t]["faults"])) for t in meta],
             "samples": [meta[t] for t in list(meta)[2:3]], "violations": viol, "extra": {"faulty_requests": len(records)}}
 
@@ -281,6 +287,7 @@ def main(argv):
     jobs = [{"kind": "matrix"}] + [{"kind": "text", "seed": common.seed() * 100 + k + 1, "behaviours": 800 if thorough else 300,
                                     "max_cases": 400 if thorough else 120, "per_seed": 40 if thorough else 15} for k in range(n)]
     jobs += [{"kind": "faults", "seed": common.seed() * 100 + 91 + k, "behaviours": 1500 if thorough else 500, "max_cases": 1500 if thorough else 300} for k in range(4 if thorough else 2)]
+    jobs.append({"kind": "faults", "cfg": "MC_faults_gd.cfg", "exhaustive": True, "seed": 0, "behaviours": 0, "max_cases": 20000 if thorough else 4000})
     results = genrun.run_jobs("checks.c18", "job", jobs)
     bad = genrun.merge(rep, results)
     rep.exhaustive = False
